@@ -511,7 +511,7 @@ async fn main(plan: Plan) -> Outcome {
             policy: [Policy::Default, Policy::Downgrading, Policy::Fallthrough]
                 [tape::weighted("c06:policy", &[3, 3, 1])],
             consistency: CONSISTENCIES[tape::weighted("c06:cl", &[3, 2, 1, 1, 1, 1, 1, 1])],
-            kind: if plan.forgetful { [2u64, 3, 6][tape::choose("c06:kind_prepared", 3) as usize] } else { tape::choose("c06:kind", 8) },
+            kind: if plan.forgetful { [2u64, 3, 6][tape::choose("c06:kind_prepared", 3) as usize] } else { tape::choose("c06:kind", 10) },
         });
     }
     let mut handles = Vec::new();
@@ -552,6 +552,30 @@ async fn main(plan: Plan) -> Outcome {
                         .await
                         .map(|_| ())
                         .map_err(|e| client::short_err(&e))
+                }
+                8 | 9 => {
+                    // Manual paging: one page fetched with query_single_page /
+                    // execute_single_page, from the start or (m / 16 odd) continuing from a
+                    // paging state the caller kept from an earlier page.
+                    use scylla::response::PagingState;
+                    let state = if m / 16 % 2 == 1 { PagingState::new_from_raw_bytes(vec![0u8; 8]) } else { PagingState::start() };
+                    if s.kind == 8 {
+                        let mut st = Statement::new(client::q_marker(m));
+                        st.set_is_idempotent(s.idempotent);
+                        st.set_consistency(s.consistency);
+                        st.set_retry_policy(Some(rec));
+                        session.query_single_page(st, (), state).await.map(|_| ()).map_err(|e| client::short_err(&e))
+                    } else {
+                        let mut p = p_select.clone();
+                        p.set_is_idempotent(s.idempotent);
+                        p.set_consistency(s.consistency);
+                        p.set_retry_policy(Some(rec));
+                        session
+                            .execute_single_page(&p, (m as i64 % 7, m as i64), state)
+                            .await
+                            .map(|_| ())
+                            .map_err(|e| client::short_err(&e))
+                    }
                 }
                 7 => {
                     // An unprepared statement WITH values: every attempt prepares it on its
